@@ -69,15 +69,18 @@ contract(
     requires=["nlive >= 1"],
     raises={"ValueError": "lower(expectation) != 'logt' and "
             "lower(expectation) != 't'"},
+    ghost_set={"self.ghost_refined": "False"},
     modifies=["self." + f for f in (
         "base_nlive", "track_gradients", "expectation", "logZ", "oldZ",
-        "logw", "info", "logLs", "log_vols", "nlive", "gradients")],
+        "logw", "info", "logLs", "log_vols", "nlive", "gradients",
+        "ghost_refined")],
     ensures=EV_INV + [
         "self.expectation == lower(expectation)",
         "self.base_nlive == nlive",
         "len(self.logLs) == 1 and self.logLs[0] == -INF",
         "self.logZ == -INF and self.logw == 0",
         "len(self.nlive) == 0",
+        "not self.ghost_refined",
     ],
 )
 
@@ -91,6 +94,10 @@ contract(
     params={"logL": "Real", "nlive": "Opt(Int)"},
     requires=EV_INV + [
         "implies(nlive is not None, nlive >= 1)",
+        # the running sum is extended, never a refined (trapezoidal) value:
+        # incrementing after `finalise` would build the information
+        # estimate on the wrong evidence
+        "not self.ghost_refined",
     ],
     modifies=["self.nlive", "self.logZ", "self.info", "self.logw",
               "self.logLs", "self.log_vols", "self.gradients"],
@@ -129,8 +136,10 @@ contract(
     EV, "_NSIntegralState.finalise",
     props=["C02", "C01", "C05", "C15"], log_domain=True,
     requires=EV_INV,
-    modifies=["self.logZ"], returns="Real",
+    modifies=["self.logZ", "self.ghost_refined"], returns="Real",
+    ghost_set={"self.ghost_refined": "True"},
     ensures=[
+        "self.ghost_refined",
         # trapezoidal evidence over L = [L_0..L_N, L_N], X = [X_0..X_N, 0]
         f"E(self.logZ) == {ZTRAP}",
         "result == self.logZ",
